@@ -232,18 +232,19 @@ def gen_history(shape_seed, secret_seed, tname, n_ops, present_only=False):
 
 
 def rename_values(h, seed):
-    """twin history: all element values renamed by an injective, integrality-preserving, order-scrambling map;
-    positions, lengths, flags and equality pattern (hence every public outcome) stay the same"""
+    """twin history: all element values renamed by a strictly increasing, integrality-preserving map;
+    positions, lengths, flags, equality and order pattern (hence every public outcome) stay the same"""
     f = TYPES[h['type']][1]
     u = 1 << f
     rng = random.Random(f'ren:{seed}')
-    perm = list(range(-60, 61))
-    rng.shuffle(perm)
+    c = rng.choice([1, 2, 3])
+    d = rng.randrange(-5, 6)
+    if c == 1 and d == 0:
+        d = 3
 
     def g(v):
-        q, r = divmod(v, u)          # v = q*u + r: permute the integer part, keep the fraction
-        assert -60 <= q <= 60
-        return perm[q + 60] * u + r
+        q, r = divmod(v, u)          # v = q*u + r: strictly increasing map keeping the fractional part, so the
+        return (c * q + d) * u + r   # equality AND order pattern (sort, positions) of the twin history is the same
 
     def gl(l):
         return [g(v) for v in l]
@@ -579,8 +580,10 @@ def run_real(histories, m, seed, wire=False):
         del TRACE[:]
         results = net.run(prog)[0]
         return results, wlogs
-    for h in histories:
-        net = SimNet(m, (m - 1) // 2, seed=seed, no_barrier=True)
+    for idx, h in enumerate(histories):
+        # reference FIFO schedule, or (every other plain history) a seeded random interleaving with chunked delivery
+        sched = None if wire or idx % 2 == 0 else simnet.Scheduler(seed * 1000 + idx, 'random')
+        net = SimNet(m, (m - 1) // 2, seed=seed, no_barrier=True, sched=sched)
         wl = []
         if wire:
             net.on_write = lambda a, b, data, wl=wl: wl.append((a, b, len(data)))
@@ -797,7 +800,7 @@ def check_batch(ctx, hs, m, seed, label, lines, impl, soft):
                 ctx.count('key:' + {'p': 'public', 's': 'secret-number', 'u': 'secindex', 'l': 'bit-list'}[op['key'][0]])
         bad = oracle_check(h, steps)
         if bad is not None:
-            hh, b2 = shrink(h, m, seed)
+            hh, b2 = shrink(h, m, seed) if not ctx.violations else (h, None)     # shrink the first one only
             if b2 is None:
                 hh, b2 = h, bad
             ctx.violation('seclist differs from Python list: ' + b2[1], replay_dict(hh, m, seed, *b2))
@@ -832,6 +835,10 @@ def twins_check(ctx, rng, m, seed, count, max_ops):
         if [shape_of(o) for o in a['ops']] != [shape_of(o) for o in b['ops']] or len(a['init']) != len(b['init']):
             ctx.count('twin:shape-diverged(skipped)')
             continue
+        pa, pb = predicted_kinds(a), predicted_kinds(b)
+        if pa != pb or (m > 1 and any(k == 'async-error' for k in pa)):
+            ctx.count('twin:public-outcome-diverged(skipped)')
+            continue
         try:
             (ra,), wa = run_real([a], m, seed, wire=True)
             (rb,), wb = run_real([b], m, seed, wire=True)
@@ -858,6 +865,25 @@ def twins_check(ctx, rng, m, seed, count, max_ops):
                            'observed': f'{len(wb[0])} writes / {sum(x[2] for x in wb[0])} bytes'})
 
 
+def predicted_kinds(h):
+    """public outcomes of a history as predicted by the Python list: result kind per step and list lengths"""
+    f = TYPES[h['type']][1]
+    cur = list(h['init'])
+    out = []
+    for op in h['ops']:
+        if op.get('oob'):
+            out.append('oob')
+            if op['op'] != 'get' and op['key'] != ['u', 0, []]:
+                break
+            continue
+        res, cur = py_apply(cur, op, f)
+        if res[0] == 'e' and op['op'] in ('index', 'remove') and cur:
+            out.append('async-error')     # raised after an await inside an MPyC coroutine: lost when m > 1
+        else:
+            out.append((res[0], res[1] if res[0] == 'e' else None, len(cur)))
+    return out
+
+
 def shape_of(op):
     """the public part of an operation"""
     d = {'op': op['op']}
@@ -882,15 +908,15 @@ def run(ctx):
         lines, impl, soft = [], [], []
         static_errors(ctx)
         # bulk: one party
-        hs1 = make_histories(rng, ctx.scale(420, 2500), max_ops, list(TYPES))
+        hs1 = make_histories(rng, ctx.scale(800, 9000), max_ops, list(TYPES))
         check_batch(ctx, hs1, 1, ctx.seed, 'm=1', lines, impl, soft)
         # sample: three parties (values looked up by index/remove are present: an exception raised after the first
         # await of an MPyC coroutine does not reach the caller when m > 1)
-        hs3 = make_histories(rng, ctx.scale(10, 60), ctx.scale(8, 20), list(TYPES), present_only=True)
+        hs3 = make_histories(rng, ctx.scale(20, 200), ctx.scale(8, 20), list(TYPES), present_only=True)
         check_batch(ctx, hs3, 3, ctx.seed + 1, 'm=3', lines, impl, soft)
         # only len is public (real code, differential)
-        twins_check(ctx, rng, 1, ctx.seed, ctx.scale(60, 400), max_ops)
-        twins_check(ctx, rng, 3, ctx.seed + 2, ctx.scale(5, 30), ctx.scale(7, 14))
+        twins_check(ctx, rng, 1, ctx.seed, ctx.scale(150, 1500), max_ops)
+        twins_check(ctx, rng, 3, ctx.seed + 2, ctx.scale(10, 100), ctx.scale(7, 14))
         # correspondence with the Lean model
         model = common.LeanDriver('SecList').run(lines)
         if isinstance(model, common.DriverFailure):
